@@ -46,11 +46,12 @@ type GenContract struct {
 	Code    string            `json:"code"` // hex, no 0x
 	Storage map[string]string `json:"storage,omitempty"`
 	Balance string            `json:"balance,omitempty"`
+	Bal2    string            `json:"bal2,omitempty"` // balance in the first extra denom
 }
 
 // GenVesting places a vesting account in genesis. Times are offsets (seconds) from GenesisUnix.
 type GenVesting struct {
-	Kind     string `json:"kind"` // continuous | delayed | periodic | permanent
+	Kind     string `json:"kind"`   // continuous | delayed | periodic | permanent
 	Wallet   int    `json:"wallet"` // index in the "vest" key family (the account has a key)
 	Addr     string `json:"addr,omitempty"`
 	StartOff int64  `json:"start_off"`
@@ -58,6 +59,9 @@ type GenVesting struct {
 	Amount   string `json:"amount"`          // original vesting (base denom)
 	Extra    string `json:"extra,omitempty"` // additional free balance (base denom)
 	Denom2   string `json:"denom2,omitempty"`
+	// Delegated: the whole original vesting is delegated to validator 0 in genesis, so the account's
+	// bank balance is zero (an "empty" but unexpired vesting account).
+	Delegated bool `json:"delegated,omitempty"`
 }
 
 // GenesisSpec is the complete, serialisable description of a genesis state. Everything the simulator
@@ -205,6 +209,11 @@ func BuildGenesis(spec GenesisSpec) *Built {
 	}
 
 	// vesting accounts
+	type extraDel struct {
+		addr sdk.AccAddress
+		amt  sdkmath.Int
+	}
+	var extraDelegations []extraDel
 	for i, vs := range spec.Vesting {
 		k := NewWallet("vest", vs.Wallet)
 		b.VestKeys = append(b.VestKeys, k)
@@ -221,6 +230,10 @@ func BuildGenesis(spec GenesisSpec) *Built {
 		bva, err := vestingtypes.NewBaseVestingAccount(base, orig, GenesisUnix+vs.EndOff)
 		if err != nil {
 			panic(fmt.Sprintf("vesting %d: %v", i, err))
+		}
+		if vs.Delegated {
+			bva.DelegatedVesting = sdk.NewCoins(sdk.NewCoin(BaseDenom, sdkmath.NewIntFromBigInt(mustBig(vs.Amount))))
+			extraDelegations = append(extraDelegations, extraDel{addr, sdkmath.NewIntFromBigInt(mustBig(vs.Amount))})
 		}
 		var ga authtypes.GenesisAccount
 		switch vs.Kind {
@@ -252,6 +265,9 @@ func BuildGenesis(spec GenesisSpec) *Built {
 			panic("unknown vesting kind " + vs.Kind)
 		}
 		coins := orig
+		if vs.Delegated {
+			coins = coins.Sub(sdk.NewCoin(BaseDenom, sdkmath.NewIntFromBigInt(mustBig(vs.Amount))))
+		}
 		if vs.Extra != "" {
 			coins = coins.Add(sdk.NewCoin(BaseDenom, sdkmath.NewIntFromBigInt(mustBig(vs.Extra))))
 		}
@@ -268,6 +284,9 @@ func BuildGenesis(spec GenesisSpec) *Built {
 		if c.Balance != "" {
 			coins = sdk.NewCoins(sdk.NewCoin(BaseDenom, sdkmath.NewIntFromBigInt(mustBig(c.Balance))))
 		}
+		if c.Bal2 != "" && len(spec.ExtraDenoms) > 0 {
+			coins = coins.Add(sdk.NewCoin(spec.ExtraDenoms[0], sdkmath.NewIntFromBigInt(mustBig(c.Bal2))))
+		}
 		addAcc(acc, coins)
 		var st evmtypes.Storage
 		keys := make([]string, 0, len(c.Storage))
@@ -283,6 +302,16 @@ func BuildGenesis(spec GenesisSpec) *Built {
 
 	genesisState[authtypes.ModuleName] = cdc.MustMarshalJSON(authtypes.NewGenesisState(authtypes.DefaultParams(), accounts))
 
+	extraBonded := sdkmath.ZeroInt()
+	for _, d := range extraDelegations {
+		// delegate to validator 0 at the genesis exchange rate of 1
+		validators[0].Tokens = validators[0].Tokens.Add(d.amt)
+		validators[0].DelegatorShares = validators[0].DelegatorShares.Add(sdkmath.LegacyNewDecFromInt(d.amt))
+		delegations = append(delegations, stakingtypes.NewDelegation(d.addr.String(), validators[0].OperatorAddress, sdkmath.LegacyNewDecFromInt(d.amt)))
+		extraBonded = extraBonded.Add(d.amt)
+		totalSupply = totalSupply.Add(sdk.NewCoin(BaseDenom, d.amt))
+	}
+
 	stakingParams := stakingtypes.DefaultParams()
 	stakingParams.BondDenom = BaseDenom
 	if spec.UnbondingS > 0 {
@@ -292,7 +321,7 @@ func BuildGenesis(spec GenesisSpec) *Built {
 
 	balances = append(balances, banktypes.Balance{
 		Address: authtypes.NewModuleAddress(stakingtypes.BondedPoolName).String(),
-		Coins:   sdk.Coins{sdk.NewCoin(BaseDenom, bondAmt.MulRaw(int64(len(validators))))},
+		Coins:   sdk.Coins{sdk.NewCoin(BaseDenom, bondAmt.MulRaw(int64(len(validators))).Add(extraBonded))},
 	})
 
 	mkMeta := func(denom string, exp uint32) banktypes.Metadata {
